@@ -63,6 +63,7 @@ class Emitter:
         self.typeinfo_ids = {}
         self.extra_protos = {}
         self.global_fwd = []
+        self.ambiguous_literals = set()
         self.entry_names = set()
 
     # ------------------------------------------------------------------ scaling
@@ -89,6 +90,11 @@ class Emitter:
         lim = 1 << (self.scale - 1)   # literals that fit the scaled signed range stay as they are
         if -lim <= sv <= lim - 1:
             r = sv
+        elif lim <= sv <= 2 * lim - 1 and sv <= 7:
+            # small literal that fits the scaled width only as an unsigned pattern: compiler-made selector codes
+            # (switch/select on 4, 5, ..); kept bit-identical, recorded in the report as ambiguous
+            r = sv
+            self.ambiguous_literals.add((n, sv))
         elif sv in table:
             r = table[sv]
         else:
@@ -105,6 +111,10 @@ class Emitter:
             return t[v]
         if v <= 2:
             return v
+        # shifts that address bits relative to the top of the type (sign-bit extraction tricks): top-j -> scaled top-j
+        for full, sc in ((32, W), (64, 2 * W), (128, 4 * W)):
+            if n == full and full - 6 <= v < full and sc - (full - v) >= 0:
+                return sc - (full - v)
         raise IRError('unscalable shift amount %d' % v)
 
     # ------------------------------------------------------------------ types
@@ -418,7 +428,7 @@ class Emitter:
         if w == bits:
             return '((%s)%s)' % (sint_ct(n), e)
         if self.scale and w != n:
-            return '((%s)(signed __CPROVER_bitvector[%d])(unsigned __CPROVER_bitvector[%d])%s)' % (sint_ct(n), w, w, e)
+            return '((%s)(IR2C_SBV(%d))(IR2C_UBV(%d))%s)' % (sint_ct(n), w, w, e)
         # odd width, unscaled: shift trick
         sh = bits - w
         return '((%s)((%s)(%s << %d)) >> %d)' % (sint_ct(n), sint_ct(n), e, sh, sh)
@@ -454,20 +464,20 @@ class Emitter:
             return self.wrap(n, '(%s)%s %s (%s)%s' % (W, a, cop, W, b))
         if op == 'mul':
             if narrow:
-                ub = 'unsigned __CPROVER_bitvector[%d]' % w
+                ub = 'IR2C_UBV(%d)' % w
                 return '((%s)(%s)((%s)%s * (%s)%s))' % (uint_ct(n), ub, ub, a, ub, b)
             return self.wrap(n, '(%s)%s * (%s)%s' % (W, a, W, b))
         if op in ('udiv', 'urem'):
             cop = '/' if op == 'udiv' else '%'
             if narrow:
-                ub = 'unsigned __CPROVER_bitvector[%d]' % w
+                ub = 'IR2C_UBV(%d)' % w
                 return '((%s)(%s)((%s)%s %s (%s)%s))' % (uint_ct(n), ub, ub, a, cop, ub, b)
             return self.wrap(n, '(%s)%s %s (%s)%s' % (W, a, cop, W, b))
         if op in ('sdiv', 'srem'):
             cop = '/' if op == 'sdiv' else '%'
             if narrow:
-                sb = 'signed __CPROVER_bitvector[%d]' % w
-                ub = 'unsigned __CPROVER_bitvector[%d]' % w
+                sb = 'IR2C_SBV(%d)' % w
+                ub = 'IR2C_UBV(%d)' % w
                 return '((%s)(%s)((%s)(%s)%s %s (%s)(%s)%s))' % (uint_ct(n), ub, sb, ub, a, cop, sb, ub, b)
             # guard INT_MIN / -1 (caught by the source-level ubsan trap; keep the C defined)
             return self.wrap(n, 'ir2c_s%s_%d(%s, %s)' % ('div' if op == 'sdiv' else 'rem', int_store_bits(n), self.sx(n, a), self.sx(n, b)))
@@ -1024,7 +1034,12 @@ class Emitter:
             return
         if cname in ('nondet_u8', 'nondet_u16', 'nondet_u32', 'nondet_u64'):
             w = cname[8:]
-            body.append('ir2c_in_u%s = %s(); %s = ir2c_in_u%s;' % (w, cname, res if res else 'ir2c_in_u' + w, w))
+            nw = int(w)
+            if self.scale and self.nb(nw) != nw:
+                # scaled mode: a symbolic word/lword input ranges over the scaled width only
+                body.append('ir2c_in_u%s = %s() & %s; %s = ir2c_in_u%s;' % (w, cname, self.mask(nw), res if res else 'ir2c_in_u' + w, w))
+            else:
+                body.append('ir2c_in_u%s = %s(); %s = ir2c_in_u%s;' % (w, cname, res if res else 'ir2c_in_u' + w, w))
             self.after_call(I, label, body, False)
             return
         argv = [self.cv(t, v) for (t, v, a) in args]
@@ -1162,17 +1177,17 @@ class Emitter:
             sgn = base[0] == 's'
             o = {'add': '+', 'sub': '-', 'mul': '*'}[base[1:]]
             if self.scale and w != n:
-                big = '__CPROVER_bitvector[%d]' % (2 * w + 2)
+                bigw = 2 * w + 2
                 if sgn:
-                    ea = '((signed %s)(signed __CPROVER_bitvector[%d])(unsigned __CPROVER_bitvector[%d])%s)' % (big, w, w, a)
-                    eb = '((signed %s)(signed __CPROVER_bitvector[%d])(unsigned __CPROVER_bitvector[%d])%s)' % (big, w, w, b)
-                    body.append('{ signed %s x_ = %s %s %s; %s.f0 = %s; %s.f1 = (x_ < %d || x_ > %d); }' % (
-                        big, ea, o, eb, res, self.wrap(n, '(%s)(unsigned %s)x_' % (uint_ct(n), big)), res, -(1 << (w - 1)), (1 << (w - 1)) - 1))
+                    ea = '((IR2C_SBV(%d))(IR2C_SBV(%d))(IR2C_UBV(%d))%s)' % (bigw, w, w, a)
+                    eb = '((IR2C_SBV(%d))(IR2C_SBV(%d))(IR2C_UBV(%d))%s)' % (bigw, w, w, b)
+                    body.append('{ IR2C_SBV(%d) x_ = %s %s %s; %s.f0 = %s; %s.f1 = (x_ < %d || x_ > %d); }' % (
+                        bigw, ea, o, eb, res, self.wrap(n, '(%s)(IR2C_UBV(%d))x_' % (uint_ct(n), bigw)), res, -(1 << (w - 1)), (1 << (w - 1)) - 1))
                 else:
-                    ea = '((signed %s)(unsigned __CPROVER_bitvector[%d])%s)' % (big, w, a)
-                    eb = '((signed %s)(unsigned __CPROVER_bitvector[%d])%s)' % (big, w, b)
-                    body.append('{ signed %s x_ = %s %s %s; %s.f0 = %s; %s.f1 = (x_ < 0 || x_ > %d); }' % (
-                        big, ea, o, eb, res, self.wrap(n, '(%s)(unsigned %s)x_' % (uint_ct(n), big)), res, (1 << w) - 1))
+                    ea = '((IR2C_SBV(%d))(IR2C_UBV(%d))%s)' % (bigw, w, a)
+                    eb = '((IR2C_SBV(%d))(IR2C_UBV(%d))%s)' % (bigw, w, b)
+                    body.append('{ IR2C_SBV(%d) x_ = %s %s %s; %s.f0 = %s; %s.f1 = (x_ < 0 || x_ > %d); }' % (
+                        bigw, ea, o, eb, res, self.wrap(n, '(%s)(IR2C_UBV(%d))x_' % (uint_ct(n), bigw)), res, (1 << w) - 1))
                 return
             bits = int_store_bits(n)
             if bits != n:
@@ -1505,6 +1520,13 @@ def run(a):
         out.append('void %s(void) { ir2c_global_init(); %s(); }' % (em.gname(e), em.fname(e)))
     for n in undefined:
         out.append('#define IR2C_NEED_%s 1' % sanitize(n))
+        if n in mod.functions and not n.startswith('llvm.'):
+            # lets a model in rt/ be written without knowing module-dependent struct tags:
+            #   IR2C_RET_<n> <n>(IR2C_ARGS_<n>) { ... a0, a1, ... }
+            f_ = mod.functions[n]
+            pr_ = em.proto(f_)
+            out.append('#define IR2C_ARGS_%s %s' % (sanitize(n), pr_[pr_.index('(') + 1:pr_.rindex(')')]))
+            out.append('#define IR2C_RET_%s %s' % (sanitize(n), em.ct(f_.ret, True) if f_.ret != ('void',) else 'void'))
     for n in em.used_globals:
         if mod.globals[n].external:
             out.append('#define IR2C_NEEDG_%s 1' % sanitize(n))
@@ -1521,13 +1543,13 @@ def run(a):
                    'replaced': {dem.get(k, k): v for k, v in em.replace.items() if k in em.used_funcs_set},
                    'rt_models': sorted(n for n in undefined),
                    'globals': em.used_globals, 'dynamic_initialisers_run': init_included,
-                   'scale': a.scale}, open(a.report, 'w'), indent=1)
+                   'scale': a.scale, 'scale_ambiguous_literals': sorted(em.ambiguous_literals)}, open(a.report, 'w'), indent=1)
 
 
 NO_PROTO = set()
 RT_BUILTIN = {
     'malloc', 'free', 'calloc', 'realloc', 'memcpy', 'memmove', 'memset', 'memcmp', 'strlen', 'strcmp', 'strncmp',
-    'strcpy', 'strchr', 'memchr', 'abort', 'exit',
+    'strcpy', 'strchr', 'strrchr', 'memchr', 'abort', 'exit',
 }
 
 
